@@ -22,7 +22,7 @@ func TestVerifC04(t *testing.T) {
 	r := vlib.Start("C04", vPart("det"))
 	defer r.Finish()
 	rr := r.Rand("c04", r.Part)
-	n := r.Pick(300, 5000)
+	n := r.Pick(300, 20000)
 	if r.Part != "det" {
 		n = r.Pick(80, 500)
 	}
